@@ -239,7 +239,9 @@ Fixpoint denote (p : pt) (rho : env) {struct p} : option pulse :=
   | Const d vals =>
       match eval rho d with
       | Some dd =>
-          if Qle_bool dd 0 then Some []      (* the values of an empty constant pulse are never evaluated *)
+          if Qle_bool dd 0 then
+            (if Qle_bool 0 dd then Some []   (* the values of an empty constant pulse are never evaluated *)
+             else None)                      (* a negative duration does not denote a pulse *)
           else match opt_all (map (fun kv => option_map (fun q => (fst kv, q)) (eval rho (snd kv))) vals) with
                | Some vs => Some [(dd, map (fun kv => (fst kv, FSegs [(dd, [snd kv])] (snd kv))) vs)]
                | None => None
